@@ -124,6 +124,16 @@ def analyse_memo(R, f, spec):
             'R-MEMO', 'key-mismatch', q, memo,
             f'the memo is read with key {sorted(rkeys)} but written with '
             f'key {sorted(wkeys)}', unit=f.unit.rel, line=f.lineno)
+    elif rkeys and not wkeys <= rkeys:
+        extra = sorted(wkeys - rkeys)
+        w0 = [w for w in writes if norm_key(fn, w.slice) in extra][0]
+        R.violation(
+            'R-MEMO', 'foreign-key-store', q, memo,
+            f'the result of a call is also stored under {extra}, which '
+            f'is not the key it is looked up with ({sorted(rkeys)}): the '
+            'entry claims a result for arguments other than those of '
+            'this call, and a later call with those arguments gets it',
+            unit=f.unit.rel, line=w0.lineno)
     else:
         R.holds('R-MEMO', q, f'memo `{memo}`: read key == written key '
                 f'({sorted(wkeys)})')
